@@ -21,6 +21,7 @@
 -/
 import Aqv.Lemmas.ChainHist
 import Aqv.Lemmas.ChainHdr
+import Aqv.Lemmas.ChainMixedIdx
 namespace Aqv.Props.C03
 open Aqv.Chain
 
@@ -208,6 +209,79 @@ theorem writeHeader_orphan_refused_witness :
     let r := (hImportChain s [o3] []).1
     s.hhead = 0 ∧ s.store 1 = none ∧ r.err = some .unknownAncestor ∧ (r.st.store 10).isSome = true ∧
       r.st.canon 1 = none ∧ r.st.canon 2 = none ∧ r.st.canon 3 = none ∧ r.st.canon 4 = none ∧ r.st.hhead = 0 := by
+  decide
+
+/-! ### mixed histories: `InsertChain` and `InsertHeaderChain` on ONE chain
+
+Model: `XSt` (`Aqv.Model.ChainMixed`): the full-import database plus the header store; a block batch runs the full-import
+model, a header batch the header-chain model, over the shared td records / number index / head header.  The index clauses of
+C03 are read with the header head as "the head".
+
+For the code as written the property FAILS in mixed histories (known finding `mixed-import-stale-numbers-above-head`,
+reproduced on the real code, exhaustive small-scope evidence in `.work/patches/C03-insert-clears-numbers-above.evidence.txt`):
+`BlockChain.insert` re-points the heads to a block without deleting the number entries above it or re-pointing those below
+it, and `reorg`'s clean-up loop deletes entries of a header chain that is ahead.  Hence the full statement
+
+    theorem inv_reachable_mixed : ∀ mixed op lists, the number index is the ancestry of the header head, nothing above
+
+is NOT provable; below are (a) the negation on three shortest witnesses and (b) `inv_reachable_mixed_partial`: the statement
+for histories without the offending transition — any admissible history of full imports followed by any header imports
+(excluded shape: a block import in a state in which header imports have moved the index or the head header off the chain
+of the block head). -/
+
+/-- (b) full imports (any admissible history: reorganisations, rewinds onto blocks with state, restarts), then header imports
+    of any forks, lighter, equal or heavier, any coin: the number index is exactly the ancestry of the header head, nothing
+    is indexed above it, and every indexed header has its td -/
+theorem inv_reachable_mixed_partial (W : World U) (g : Blk) (hgU : U g.id = some g) (hg0 : g.number = 0)
+    (hgt : g.txs = []) (ops : List Op) (hadm : Admissible U (init g true) ops)
+    (hs : List (List Blk × List Bool)) (hU : ∀ c ∈ hs, ∀ x ∈ c.1, U x.id = some x) :
+    let s := run (init g true) ops
+    HSpecInv (toH (xHeaderPhase ⟨s, s.store⟩ hs)) := by
+  intro s
+  have hI : Inv U s := inv_reachable W ops (inv_init g true hgU hg0 hgt) hadm
+  exact hspec_of_inv W (hinv_headerPhase W hs _ (hinv_of_inv W hI) hU)
+
+example :
+    let s := run (init g true) [.insert [a1, a2, a3] []]
+    let x := xHeaderPhase ⟨s, s.store⟩ [([b1], []), ([b2], [])]
+    x.full.hhead = 5 ∧ x.full.head = 3 ∧ x.full.canon 1 = some 4 ∧ x.full.canon 2 = some 5 ∧ x.full.canon 3 = none := by
+  decide
+
+/-- (a1) entries ABOVE the head header: headers a1–a2, then the block b1 (sibling of a1): every head moves to b1 (height 1)
+    — a block import forces the heads onto its branch — but height 2 still maps to a2 -/
+theorem mixed_stale_number_above_witness :
+    let x := xrun (xinit g) [.headers [a1, a2] [], .blocks [b1] []]
+    x.full.head = 4 ∧ x.full.hhead = 4 ∧ x.full.canon 1 = some 4 ∧ x.full.canon 2 = some 2 ∧ ¬ HSpecInv (toH x) := by
+  refine ⟨by decide, by decide, by decide, by decide, ?_⟩
+  intro h
+  have := h.above b1 (by decide) 2 (by decide)
+  revert this
+  decide
+
+/-- (a2) a stale entry BELOW the head header: block a1, headers b1–b2 (heavier: the index follows them), then blocks a1–a2:
+    a2 extends the block head without a reorganisation, `insert` writes height 2 and moves the head header to a2, height 1
+    still maps to b1 -/
+def xBelow : XSt := xrun (xinit g) [.blocks [a1] [], .headers [b1, b2] [], .blocks [a1, a2] []]
+
+theorem mixed_stale_number_below_witness :
+    xBelow.full.head = 2 ∧ xBelow.full.hhead = 2 ∧ xBelow.full.canon 2 = some 2 ∧ xBelow.full.canon 1 = some 4 ∧
+      ¬ HSpecInv (toH xBelow) := by
+  refine ⟨by decide, by decide, by decide, by decide, ?_⟩
+  intro h
+  obtain ⟨y, hy, _, hyc, _⟩ := h.below a2 (by decide) 1 (by decide)
+  have hup : up (toH xBelow).store (a2.number - 1) (toH xBelow).hhead = some a1 := by decide
+  rw [hup] at hy
+  cases hy
+  revert hyc
+  decide
+
+/-- (a3) entries of the header chain DELETED below the head header: block a1, headers b1–b2–x3 (heavier, ahead), then the
+    block b1 (td 120, beats a1 with td 110): `reorg` re-inserts b1 — already indexed at height 1, so the head header stays
+    on x3 — and its clean-up loop deletes heights 2 and 3, which belong to the header chain that is ahead -/
+theorem mixed_header_entries_deleted_witness :
+    let x3 : Blk := ⟨20, 5, 3, 20, []⟩
+    let x := xrun (xinit g) [.blocks [a1] [], .headers [b1, b2, x3] [], .blocks [b1] []]
+    x.full.head = 4 ∧ x.full.hhead = 20 ∧ x.full.canon 1 = some 4 ∧ x.full.canon 2 = none ∧ x.full.canon 3 = none := by
   decide
 
 end Aqv.Props.C03
